@@ -3,6 +3,8 @@
 package cl
 
 import (
+	"fmt"
+
 	"github.com/ohler55/slip"
 )
 
@@ -94,10 +96,14 @@ func (f *AdjustArray) Call(s *slip.Scope, args slip.List, depth int) (result sli
 	}
 	switch ta := args[1].(type) {
 	case slip.Fixnum:
+		if ta < 0 || slip.ArrayMaxDimension < ta {
+			slip.TypePanic(s, depth, "dimensions", ta,
+				fmt.Sprintf("non-negative fixnum less than %d", slip.ArrayMaxDimension))
+		}
 		dims = []int{int(ta)}
 	case slip.List:
 		for _, v := range ta {
-			if num, _ := v.(slip.Fixnum); 0 < num {
+			if num, _ := v.(slip.Fixnum); 0 < num && num <= slip.ArrayMaxDimension {
 				dims = append(dims, int(num))
 			} else {
 				slip.TypePanic(s, depth, "dimensions", args[0], "list of positive fixnums")
